@@ -29,6 +29,8 @@ type vKAConn struct {
 	pongs    []time.Duration
 	pings    []time.Duration
 	wake     chan struct{}
+	created  time.Time
+	inbound  []time.Duration // the peer sends a data message at these moments (relative to the creation of the connection)
 }
 
 func (c *vKAConn) kick() {
@@ -65,6 +67,19 @@ func (c *vKAConn) ReadMessage() (int, []byte, error) {
 		if dl.IsZero() {
 			wait = time.Hour
 		}
+		c.mu.Lock()
+		if len(c.inbound) > 0 {
+			due := time.Until(c.created.Add(c.inbound[0]))
+			if due <= 0 {
+				c.inbound = c.inbound[1:]
+				c.mu.Unlock()
+				return websocket.BinaryMessage, []byte("message from the peer"), nil
+			}
+			if due < wait {
+				wait = due
+			}
+		}
+		c.mu.Unlock()
 		t := time.NewTimer(wait)
 		select {
 		case <-t.C:
@@ -105,7 +120,12 @@ func (c *vKAConn) WriteControl(mt int, _ []byte, _ time.Time) error {
 func (c *vKAConn) Close() error { c.mu.Lock(); c.closed = true; c.mu.Unlock(); c.kick(); return nil }
 
 func vKARun(role string, silentAt, rtt time.Duration, watch time.Duration, writes ...time.Duration) (torn bool, at time.Duration, conn *vKAConn) {
-	conn = &vKAConn{silentAt: silentAt, rtt: rtt, wake: make(chan struct{}, 1)}
+	return vKARunIn(role, silentAt, rtt, watch, nil, writes...)
+}
+
+// vKARunIn: as vKARun, with data messages arriving from the peer at the moments `inbound` (somebody takes them from the transport)
+func vKARunIn(role string, silentAt, rtt time.Duration, watch time.Duration, inbound []time.Duration, writes ...time.Duration) (torn bool, at time.Duration, conn *vKAConn) {
+	conn = &vKAConn{silentAt: silentAt, rtt: rtt, wake: make(chan struct{}, 1), created: time.Now(), inbound: append([]time.Duration(nil), inbound...)}
 	done := make(chan time.Duration, 1)
 	after := func() {
 		conn.mu.Lock()
@@ -117,14 +137,20 @@ func vKARun(role string, silentAt, rtt time.Duration, watch time.Duration, write
 		}
 	}
 	var write func(context.Context, []byte) error
+	var read <-chan []byte
 	if role == "client" {
 		c := newWebsocketClientConfig(context.Background(), logger.DefaultLogger, "addr", ConnectOptions{}, after, conn)
 		c.log = vSilent{logger.DefaultLogger}
 		c.Start()
-		write = c.Write
+		write, read = c.Write, c.Read()
 	} else {
-		write = newWebsocketServer(conn, &ServerConfig{}, after).Write
+		sv := newWebsocketServer(conn, &ServerConfig{}, after)
+		write, read = sv.Write, sv.Read()
 	}
+	go func() { // the endpoint's reader: takes what the read pump hands over
+		for range read {
+		}
+	}()
 	// application messages sent at the given moments of the session
 	t0 := time.Now()
 	for _, w := range writes {
@@ -224,6 +250,29 @@ func TestVerifC17Transport(t *testing.T) {
 				conn.mu.Unlock()
 				c := vCase{Class: "traffic/" + role, Sig: fmt.Sprintf("traffic/%s/%d", role, vi), Coq: fmt.Sprintf("CIdle %s %s 5 %s %s", vCoqZ(W), vCoqZ(P), vCoqZ(int64(watch)), vCoqBool(torn)),
 					Info: map[string]interface{}{"role": role, "pongs": npongs, "writes_at_periods": offs, "outcome": fmt.Sprintf("torn=%v at=%v", torn, at)}}
+				if torn {
+					c.Fail = "healthy-session-with-traffic-dropped"
+				}
+				vEmit(c)
+			}(role, vi, offs)
+		}
+		// healthy session on which the PEER sends messages (a quarter into the first period; at several moments), then idles:
+		// what the endpoint receives must not make it skip the pings its own deadline depends on
+		for vi, offs := range [][]float64{{0.25}, {0.1, 1.3, 2.2}, {0.9, 1.95}} {
+			wg.Add(1)
+			go func(role string, vi int, offs []float64) {
+				defer wg.Done()
+				watch := time.Duration(5*P) + time.Duration(P/2)
+				var in []time.Duration
+				for _, o := range offs {
+					in = append(in, time.Duration(o*float64(P)))
+				}
+				torn, at, conn := vKARunIn(role, -1, 2*time.Millisecond, watch, in)
+				conn.mu.Lock()
+				npongs := len(conn.pongs)
+				conn.mu.Unlock()
+				c := vCase{Class: "inbound/" + role, Sig: fmt.Sprintf("inbound/%s/%d", role, vi), Coq: fmt.Sprintf("CIdle %s %s 5 %s %s", vCoqZ(W), vCoqZ(P), vCoqZ(int64(watch)), vCoqBool(torn)),
+					Info: map[string]interface{}{"role": role, "pongs": npongs, "peer_sends_at_periods": offs, "outcome": fmt.Sprintf("torn=%v at=%v", torn, at)}}
 				if torn {
 					c.Fail = "healthy-session-with-traffic-dropped"
 				}
